@@ -64,6 +64,15 @@ CHECKS = {
              "effect) is run from the compiled AST and from the re-parsed hy2py text: the text must parse, both runs must "
              "agree on effect log (with values), globals and exception type, and the re-parsed run is validated by TLC.",
         note="hy2py's printing path is exercised through hy2py_worker on a sample; CPython's ast.unparse is trusted."),
+    "C39": dict(
+        engine="session", level="model_checking", design="5.9, 6/C39",
+        technique="TLC exhaustive histories of HyEvalApi replayed through the real hy.eval; writes to the hy key "
+                  "recorded by a logging mapping and trace-validated by TLC; result value via HyCore",
+        text="HyEvalApi models hy_eval_user step by step (remember, compile, implicit import, user code assigning or "
+             "deleting hy, raise at any point, restore in finally); TLC checks Restored on every history and exports them; "
+             "each is replayed on real dicts (globals-only, separate locals, logging locals; absent/truthy/falsy entry) and "
+             "the recorded key writes are validated against the spec; the returned value is checked on HyCore programs.",
+        note="hy.eval with neither globals nor locals (caller-frame locals) is not covered."),
     "C38": dict(
         engine="gensym", level="model_checking", design="5.8, 6/C38",
         technique="TLC exhaustive interleavings of the op program extracted from gensym's bytecode; "
